@@ -24,6 +24,11 @@ drf = build.load_pkg()
 from digital_rf import watchdog_drf as W, list_drf as L
 from watchdog.events import FileCreatedEvent
 rel, flags = %r, %r
+import re
+# the solver's witness is normalised without changing its membership in any of the path grammars: control / non-ASCII characters (matched
+# only by wildcards) become 'x', and the digits of a timestamped subdirectory name become a valid calendar date
+rel = ''.join(c if 32 <= ord(c) < 127 else 'x' for c in rel)
+rel = re.sub(r'(?<![0-9])[0-9]{4}-[0-9]{2}-[0-9]{2}T[0-9]{2}-[0-9]{2}-[0-9]{2}(?![0-9])', '2020-01-01T00-00-00', rel)
 top = tempfile.mkdtemp()
 path = os.path.join(top, rel.lstrip('/'))
 os.makedirs(os.path.dirname(path), exist_ok=True)
